@@ -49,14 +49,14 @@ def events(ctx):
             p = rand_params(rng, 7, 3)
             p[f] = v
             yield record("tm.rt", {"p": p, "sfx": [], "via": "tm"})
-    for _ in range(ctx.q(6000, 300000)):
+    for _ in range(ctx.q(20000, 1000000)):
         sfx = [] if rng.random() < 0.6 else [rng.randrange(256) for _ in range(rng.randrange(1, 20))]
         p = rand_params(rng)
         via = "setter" if rng.random() < 0.2 else "tm"
         if rng.random() < 0.2:
             via, p["service"], p["msgcnt"] = "srv17", 17, 0
         yield record("tm.rt", {"p": p, "sfx": sfx, "via": via})
-    for _ in range(ctx.q(6000, 200000)):
+    for _ in range(ctx.q(20000, 600000)):
         kind = rng.randrange(4)
         tslen = rng.choice([0, 0, 1, 2, 7, 7, 8])
         if kind == 0:
